@@ -11,11 +11,15 @@
 (* (what an iterator produces is a prefix of its solo run).                *)
 (* Negative controls (must be violated): NoFinally = TRUE;                 *)
 (* AllowReentry = TRUE (advancing an iterator while another iterator of    *)
-(* the same validator is suspended: the documented hazard).                *)
+(* the same validator is suspended: the documented hazard);                *)
+(* CloseUnwinds = FALSE (the clean-up runs when a resolution raises but    *)
+(* not when a suspended iterator is closed or dropped -- `except           *)
+(* Exception` where `finally` is needed: closing raises GeneratorExit,     *)
+(* which is no Exception).                                                 *)
 (***************************************************************************)
 EXTENDS Iterators
 
-CONSTANTS AllowReentry, MaxLen, MaxOps
+CONSTANTS AllowReentry, CloseUnwinds, MaxLen, MaxOps
 VARIABLES stack, its, nops
 vars == <<stack, its, nops>>
 
@@ -45,7 +49,7 @@ Advance(n) == /\ its[n].status \in {"fresh", "suspended"} /\ nops < MaxOps
                  /\ its' = [its EXCEPT ![n] = [s |-> its[n].s, pc |-> r.pc, open |-> r.open, out |-> r.out, status |-> r.status]]
               /\ nops' = nops + 1
 Close(n) == /\ its[n].status = "suspended" /\ nops < MaxOps
-            /\ stack' = Unwind(stack, its[n].open)
+            /\ stack' = IF CloseUnwinds THEN Unwind(stack, its[n].open) ELSE stack
             /\ its' = [its EXCEPT ![n] = [@ EXCEPT !.status = "closed", !.open = 0]]
             /\ nops' = nops + 1
 Forget(n) == /\ its[n].status \in {"done", "closed", "raised"}
